@@ -705,9 +705,41 @@ func (x *Exec) evalQuant(env *SpecEnv, e EQuant) Val {
 		body = x.evalBool(n, e.Body)
 		x.idxUses = saved
 	}
-	g := mkAnd(guards...)
+	// A bound variable that never indexes a slice directly (e.g. it only feeds a
+	// computed position) gives the solver no array-select pattern to instantiate on.
+	// Such variables get a marker trg(v): an uninterpreted predicate axiomatised to be
+	// true everywhere, so it changes nothing logically, but a universally quantified
+	// hypothesis then has the pattern trg(v) and a negated goal supplies trg(skolem).
+	var trgs []Term
+	allTrg := true
+	for _, v := range vars {
+		if len(uses[v.name]) > 0 {
+			allTrg = false
+			continue
+		}
+		fn := "trg$" + sortTag(v.srt)
+		if !x.ufDecl[fn] {
+			x.ufDecl[fn] = true
+			x.S.decls = append(x.S.decls, fmt.Sprintf("(declare-fun %s (%s) Bool)", fn, v.srt),
+				fmt.Sprintf("(assert (forall ((v!t %s)) (! (%s v!t) :pattern ((%s v!t)))))", v.srt, fn, fn))
+		}
+		trgs = append(trgs, Term{fmt.Sprintf("(%s %s)", fn, v.name), "Bool"})
+	}
+	g := mkAnd(append(guards, trgs...)...)
+	pat := ""
+	if allTrg && len(trgs) > 0 {
+		var ps []string
+		for _, t := range trgs {
+			ps = append(ps, t.S)
+		}
+		pat = " :pattern (" + strings.Join(ps, " ") + ")"
+	}
 	if e.Forall {
-		return Val{T: Term{fmt.Sprintf("(forall (%s) %s)", strings.Join(binders, " "), mkImp(g, body).S), "Bool"}, Typ: types.Typ[types.Bool]}
+		b := mkImp(g, body).S
+		if pat != "" {
+			b = "(! " + b + pat + ")"
+		}
+		return Val{T: Term{fmt.Sprintf("(forall (%s) %s)", strings.Join(binders, " "), b), "Bool"}, Typ: types.Typ[types.Bool]}
 	}
 	return Val{T: Term{fmt.Sprintf("(exists (%s) %s)", strings.Join(binders, " "), mkAnd(g, body).S), "Bool"}, Typ: types.Typ[types.Bool]}
 }
